@@ -500,10 +500,14 @@ def rule_sibling_call_agreement(ctx, r, callee="gwf.core.get_spec_hashes", what=
     from ..index import loc, walk_no_nested
     idx = ctx.index
     sites = []
+    target = idx.lookup(callee)
+    pnames = target.positional_params() if hasattr(target, "positional_params") else []
     for f in idx.functions.values():
         for n in walk_no_nested(f.node):
             if isinstance(n, ast.Call) and isinstance(n.func, (ast.Name, ast.Attribute)) and (idx.canon(n.func, f.module) or "") == callee:
-                shape = tuple([("#%d" % i, ast.unparse(a)) for i, a in enumerate(n.args)] + sorted((k.arg or "**", ast.unparse(k.value)) for k in n.keywords))
+                # (an argument is the same argument whether it is passed by position or by name)
+                shape = tuple(sorted([(pnames[i] if i < len(pnames) else "#%d" % i, ast.unparse(a)) for i, a in enumerate(n.args)]
+                                     + [(k.arg or "**", ast.unparse(k.value)) for k in n.keywords]))
                 sites.append((f, n, shape))
     if len(sites) < 2:
         r.info(f"src/gwf::{callee}::call-sites", f"{len(sites)} call site(s): nothing to compare")
